@@ -32,9 +32,11 @@ ASSUMPTIONS = [
     "positive gap penalties (banded), non-negative gap penalties (seeded gapped), negative thresholds and seeds "
     "outside the sequences are documented as invalid and must raise",
     "max_table_size: MemoryError or the result of the unlimited call (table growth is an implementation detail)",
-    "threshold 'cannot bind' is decided conservatively: gapped - threshold >= min(p,q)*max(0,max entry) + "
-    "(p+q)*|most negative entry or penalty| for the extended region; ungapped - threshold >= the largest drawdown of "
-    "the running score along the complete diagonal arm (the documented termination rule can then never fire)",
+    "threshold 'cannot bind' is decided from the documented rule only (stop where the score falls MORE than the "
+    "threshold below the maximum found): gapped - some optimal extension path has every non-empty prefix score >= "
+    "optimum - threshold (the maximum found never exceeds the optimum, so such a path cannot be cut in any "
+    "exploration order); ungapped - threshold >= the largest drawdown of the running score below its running "
+    "maximum along the complete diagonal arm",
     "semi-global completion: unaligned prefix and suffix of BOTH sequences are added as gap columns before "
     "rescoring; when the order of two prefixes / the side of a sequence that does not occur in the trace is "
     "ambiguous, every completion is tried and one match suffices",
@@ -172,24 +174,39 @@ def shards(tier, seed):
 # ---------------------------------------------------------------------------
 # helpers
 # ---------------------------------------------------------------------------
-_BRUTE = {}
-
-
 def _brute(env, c1, c2, gap, mode):
     """(optimum, exists an optimal alignment that pairs >= 1 position), memoised per shard env."""
     from mc.models import align as A
 
-    k = (id(env), c1, c2, gap, mode)
-    r = _BRUTE.get(k)
+    memo = env.__dict__.setdefault("_memo_brute", {})
+    k = (c1, c2, gap, mode)
+    r = memo.get(k)
     if r is None:
-        if len(_BRUTE) > 200000:
-            _BRUTE.clear()
+        if len(memo) > 200000:
+            memo.clear()
         opt, sc, sp = A.brute(c1, c2, env.mat, gap, mode)
         pairs_opt = bool(((sc == opt) & (sp.pairs > 0)).any())
         d = A.dp_opt(c1, c2, env.mat, gap, mode)
         if d != opt:
             raise RuntimeError("reference models disagree: brute=%r dp=%r for %r" % (opt, d, (c1, c2, gap, mode)))
-        r = _BRUTE[k] = (opt, pairs_opt)
+        r = memo[k] = (opt, pairs_opt)
+    return r
+
+
+def _seeded(env, c1, c2, gap, seed, direction):
+    """(best seed-containing score, smallest threshold that provably cannot bind), memoised."""
+    from mc.models import align as A
+
+    memo = env.__dict__.setdefault("_memo_seeded", {})
+    k = (c1, c2, gap, seed, direction)
+    r = memo.get(k)
+    if r is None:
+        if len(memo) > 100000:
+            memo.clear()
+        r = memo[k] = A.seeded_opt_need(c1, c2, env.mat, gap, seed, direction,
+                                        env.__dict__.setdefault("_memo_regions", {}))
+        if r[0] != A.seeded_opt(c1, c2, env.mat, gap, seed, direction):
+            raise RuntimeError("reference models disagree on the seeded optimum")
     return r
 
 
@@ -376,7 +393,6 @@ def run_banded(shard, ctx):
                             check_banded(ctx, env, l1, l2, band, gap, local, 2, False)
                         if rev and band[0] != band[1]:
                             check_banded(ctx, env, l1, l2, (band[1], band[0]), gap, local, 1000, either)
-    _BRUTE.clear()
     _mutated(ctx, env, "align_banded")
 
 
@@ -390,15 +406,6 @@ def _mutated(ctx, env, site):
 # ---------------------------------------------------------------------------
 # seeded gapped
 # ---------------------------------------------------------------------------
-def bind_bound(env, p, q, gap):
-    """A threshold >= this value cannot prune anything while extending into a p x q region."""
-    from mc.models import align as A
-
-    go, ge = A.gap_pair(gap)
-    vals = [x for row in env.logical for x in row]
-    return min(p, q) * max(0, max(vals)) + (p + q) * max(0, -min(min(vals), go, ge))
-
-
 def _seed_checks(t, seed, direction):
     """Seed containment and direction for a valid trace."""
     seed = tuple(seed)
@@ -444,14 +451,8 @@ def check_gapped(ctx, env, l1, l2, seed, threshold, gap, direction, extra=False)
     if traces is None:
         viol("invalid_trace", "trace is not a (k, 2) array")
         return
-    opt = A.seeded_opt(c1, c2, env.mat, gap, seed, direction)
-    i0, j0 = seed
-    b = 0
-    if direction in ("both", "upstream"):
-        b = max(b, bind_bound(env, i0, j0, gap))
-    if direction in ("both", "downstream"):
-        b = max(b, bind_bound(env, n - i0 - 1, m - j0 - 1, gap))
-    cannot_bind = threshold >= b
+    opt, need = _seeded(env, c1, c2, gap, tuple(seed), direction)
+    cannot_bind = threshold >= need
     seen = set()
     sc0 = int(res[0].score)
     for a, t in zip(res, traces):
@@ -712,8 +713,7 @@ def run_width(shard, ctx):
                                 for gap in (-1, (-2, -1)):
                                     check_gapped(ctx, env, l1, l2, (i0, j0), thr, gap, direction)
                                 check_ungapped(ctx, env, l1, l2, (i0, j0), thr, direction)
-        _BRUTE.clear()
-        _mutated(ctx, env, "width")
+            _mutated(ctx, env, "width")
 
 
 def check_refuse(ctx, env, fn_name, l1, l2, args, kwargs, label):
